@@ -23,3 +23,5 @@ def rules(ctx):
     S.c12_db_rules(ctx)
     S.c02_r7_pending_pins(ctx)
     S.refcount_rules(ctx)
+    S.handle_close_rules(ctx)
+    S.commit_mode_setter_rules(ctx)
